@@ -107,8 +107,9 @@ class SccCaptionText:
     return self._style_properties
 
   def add_style_property(self, style_property, value):
-    """Adds a style property"""
+    """Adds a style property (None clears it: the text takes the initial value again)"""
     if value is None:
+      self._style_properties.pop(style_property, None)
       return
     self._style_properties[style_property] = value
 
